@@ -22,6 +22,7 @@ type c01Stream struct {
 	HSend    []int `json:"h_send"`
 	HSleepNs int64 `json:"h_sleep_ns,omitempty"` // before each send
 	HCode    int   `json:"h_code,omitempty"`
+	HPark    bool  `json:"h_park,omitempty"` // after the sends the handler parks (no trailers) until the drain phase
 }
 
 type c01Act struct {
@@ -168,9 +169,82 @@ func genC01ConnEdge(r *core.Rand, s *c01Scenario, tier string) {
 	}
 }
 
+// genC01Boundary: streams whose first response message ends exactly where the
+// peer's stream window ends (so the stream is idle with zero quota, not parked
+// as waiting), and which queue more data later, while bulk senders with plenty
+// of stream and connection credit are still being written (writer stalls keep
+// them busy over virtual time); after the initial grants the peer is silent:
+// no WINDOW_UPDATE, SETTINGS or PING that could wake the writer again. Static
+// server windows, so the server sends no BDP pings either.
+func genC01Boundary(r *core.Rand, s *c01Scenario, tier string) {
+	s.Net = simnet.Cfg{Seed: s.Net.Seed, SegMax: core.Pick(r, 0, 20000, 70000)}
+	s.Net.StallPct = core.Pick(r, 20, 50, 80)
+	s.Net.StallNs = int64(core.Pick(r, 1000000, 10000000, 40000000))
+	s.Server.Static = true
+	s.Server.WriteBuf = core.Pick(r, 0, 0, 4096, 70000, -1)
+	w := core.Pick(r, 100, 1000, 4096, 16384, 65535)
+	s.PeerIWS = w
+	s.Policy = 0
+	nbulk := r.Range(1, 2)
+	nz := r.Range(1, 5)
+	var bulk []int
+	for i := 0; i < nbulk; i++ {
+		st := c01Stream{}
+		for k := r.Range(1, 2); k > 0; k-- {
+			st.HSend = append(st.HSend, r.Range(100000, 400000))
+		}
+		bulk = append(bulk, len(s.Streams))
+		s.Streams = append(s.Streams, st)
+	}
+	for i := 0; i < nz; i++ {
+		st := c01Stream{HRecv: r.Chance(1, 3), HPark: r.Chance(2, 3), HCode: core.Pick(r, 0, 0, 9)}
+		st.HSleepNs = int64(core.Pick(r, 1000, 1000000, 5000000, 30000000))
+		first := w - 5
+		if r.Chance(1, 5) {
+			first += core.Pick(r, -1, 1) // just off the boundary
+		}
+		st.HSend = []int{first}
+		for k := r.Range(1, 2); k > 0; k-- {
+			st.HSend = append(st.HSend, core.Pick(r, 0, 1, 20, 3000))
+		}
+		s.Streams = append(s.Streams, st)
+	}
+	order := make([]int, len(s.Streams))
+	for i := range order {
+		order[i] = i
+	}
+	for i := len(order) - 1; i > 0; i-- {
+		j := r.Intn(i + 1)
+		order[i], order[j] = order[j], order[i]
+	}
+	s.Acts = append(s.Acts, c01Act{Kind: "wu_conn", N: 1 << 22})
+	for _, i := range order {
+		s.Acts = append(s.Acts, c01Act{Kind: "open", Stream: i, AfterNs: int64(core.Pick(r, 0, 0, 1, 1000, 1000000))})
+		for _, b := range bulk {
+			if b == i {
+				s.Acts = append(s.Acts, c01Act{Kind: "wu_stream", Stream: i, N: 1 << 20})
+			}
+		}
+	}
+	if r.Chance(1, 4) {
+		// lower the initial window while the streams are active
+		s.Acts = append(s.Acts, c01Act{Kind: "iws", N: core.Pick(r, w/2, w-1, 1), AfterNs: int64(core.Pick(r, 1000, 1000000, 10000000))})
+	}
+	// silence, long enough for every stall and handler sleep
+	s.Acts = append(s.Acts, c01Act{Kind: "check", AfterNs: 20000000000})
+}
+
 func genC01(seed uint64, tier string, oracles string) *c01Scenario {
 	r := core.NewRand(seed)
 	s := &c01Scenario{Sched: genSched(r, seed), Net: genNet(r, seed, false), Oracles: oracles}
+	bshare := 4
+	if oracles == "l" {
+		bshare = 3 // the liveness check gets more of the silent-peer scenarios
+	}
+	if r.Chance(1, bshare) {
+		genC01Boundary(r, s, tier)
+		return s
+	}
 	if r.Chance(1, 5) {
 		if r.Chance(1, 3) {
 			s.Server.WriteBuf = core.Pick(r, -1, 100, 4096)
@@ -373,6 +447,9 @@ func runC01(e *core.Env, s *c01Scenario) {
 			}
 			ops = append(ops, HOp{Op: "send", N: n})
 		}
+		if st.HPark {
+			ops = append(ops, HOp{Op: "park"})
+		}
 		ops = append(ops, HOp{Op: "return", Code: st.HCode})
 		scripts = append(scripts, HScript{Tag: uint32(i + 1), Ops: ops})
 	}
@@ -569,6 +646,7 @@ func runC01(e *core.Env, s *c01Scenario) {
 		}
 	}
 	check("end of timeline")
+	w.Unpark()
 	// drain: open every window and let everything finish
 	draining = true
 	if !p.Closed {
